@@ -63,6 +63,12 @@ def malformed_cases():
            (good_o, (10,)), ((2, 5, 3, 3, 1), good_f), ((1, 2, 5, 3, 3), good_f), (good_o, (5, 2)), ((2, 6, 3, 3), good_f)]
     for o, f in bad:
         yield {"kind": "malformed", "oshape": list(o), "fshape": list(f)}
+    # ranks all the way down to zero, for either argument (a bare number for a one-grain aggregate is a natural slip)
+    for o, f in [(good_o, ()), ((), good_f), ((), ()), ((3, 3), ()), ((3, 3), (1,)), ((1, 3, 3), ()), ((1, 1, 3, 3), ()), (good_o, (1,)),
+                 ((5, 3, 3), (2, 5)), ((2, 5, 3, 3), (5,))]:
+        yield {"kind": "malformed", "oshape": list(o), "fshape": list(f)}
+    for special in ("fractions_python_float", "fractions_none", "orientations_none", "fractions_numpy_scalar"):
+        yield {"kind": "malformed", "oshape": [1, 1, 3, 3], "fshape": [], "special": special}
     yield {"kind": "malformed_ok", "oshape": list(good_o), "fshape": list(good_f)}
 
 
@@ -159,7 +165,16 @@ def check_case(ctx, case):
     if kind in ("malformed", "malformed_ok"):
         rng = np.random.default_rng(3)
         O = rng.normal(size=case["oshape"])
-        F = np.full(case["fshape"], 1.0 / case["fshape"][-1])
+        F = np.full(case["fshape"], 1.0 / (case["fshape"][-1] if case["fshape"] else 1))
+        sp = case.get("special")
+        if sp == "fractions_python_float":
+            F = 1.0
+        elif sp == "fractions_numpy_scalar":
+            F = np.float64(1.0)
+        elif sp == "fractions_none":
+            F = None
+        elif sp == "orientations_none":
+            O, F = None, np.ones((1, 1))
         ctx.case(case)
         st["unique"] = False
         try:
